@@ -603,7 +603,8 @@ def _run_api(case, options, grid_path, np_, choices, seams, clk, keep_log):
     """The API path of examples/tokamak/tokamak_example.py (and its circular analogue)."""
     from .procsim import ProcSim, SimAbort
 
-    sim = ProcSim(choices, step_cap=400000, keep_log=keep_log) if np_ > 1 else None
+    sim = ProcSim(choices, step_cap=400000, keep_log=keep_log,
+                  isolate=core.ISOLATE) if np_ > 1 else None
     res = {"outcome": None, "exc": None, "msg": None}
     with contextlib.ExitStack() as st:
         st.enter_context(workloads.env_seams())
